@@ -119,6 +119,11 @@ func verifRecLabel(rec logstorage.Record, name string) string {
 // do not look at the body).
 var verifC01MaxBody = 2
 
+// verifC01WithLimit makes the limit of the query symbolic (C08-O5): records
+// arrive in time order here, so a positive limit L keeps the first L MATCHING
+// records.
+var verifC01WithLimit = false
+
 func verifC01Select(N, M, S int) {
 	ops := []logql.BinOp{logql.OpEq, logql.OpNotEq, logql.OpRe, logql.OpNotRe}
 	// query
@@ -193,8 +198,14 @@ func verifC01Select(N, M, S int) {
 		return verifRefLineMatch(f.Op, rec.Body, f.Value, ri)
 	}
 	e := verifEngine(q)
+	limit := -1
+	if verifC01WithLimit {
+		limit = vsymInt("limit")
+		vsymAssume(limit >= -1)
+		vsymAssume(limit <= N+1)
+	}
 	streams, err := e.evalLogExpr(context.Background(), &logql.LogExpr{Sel: sel, Pipeline: stages},
-		EvalParams{Start: 1, End: 5000, Step: 0, Limit: -1})
+		EvalParams{Start: 1, End: 5000, Step: 0, Limit: limit})
 	vsymAssert(err == nil, "a well-formed log query evaluates")
 	// reference selection (A.1)
 	total := 0
@@ -219,7 +230,9 @@ func verifC01Select(N, M, S int) {
 				}
 			}
 		}
-		if selected {
+		if selected && limit > 0 && total >= limit {
+			vsymAssert(found == 0, "a positive limit L returns the first L MATCHING records and no more, whatever the back end offloads")
+		} else if selected {
 			vsymAssert(found == 1, "every matching record is returned exactly once, whatever the back end offloads")
 			total++
 		} else {
@@ -235,6 +248,25 @@ func verifC01Select(N, M, S int) {
 }
 
 func VerifHarness_C01_Select_1_1_0() { verifC01Select(1, 1, 0) }
+
+// C08-O5: the limit through the engine (selector matchers and line filters
+// evaluated by the engine or by the back end, symbolic capability sets).
+func VerifHarness_C08_SelectLimit_2_1_0() {
+	verifC01WithLimit, verifC01MaxBody = true, 0
+	verifC01Select(2, 1, 0)
+}
+func VerifHarness_C08_SelectLimit_3_1_0() {
+	verifC01WithLimit, verifC01MaxBody = true, 0
+	verifC01Select(3, 1, 0)
+}
+func VerifHarness_C08_SelectLimit_2_1_1() {
+	verifC01WithLimit, verifC01MaxBody = true, 1
+	verifC01Select(2, 1, 1)
+}
+func VerifHarness_C08_SelectLimit_3_1_1() {
+	verifC01WithLimit, verifC01MaxBody = true, 1
+	verifC01Select(3, 1, 1)
+}
 func VerifHarness_C01_Select_1_0_1() { verifC01Select(1, 0, 1) }
 func VerifHarness_C01_Select_1_2_0() { verifC01Select(1, 2, 0) }
 func VerifHarness_C01_Select_1_0_2() { verifC01Select(1, 0, 2) }
